@@ -66,6 +66,7 @@ BUDGET = {"quick": (30_000, 16), "thorough": (3_000_000, 180)}
 WORKERS = {"quick": 2, "thorough": 16}
 REQUIRED = ["roundtrip_state", "roundtrip_attributes", "ref_decode_of_written_file", "reader_accepts_ref_encoding", "reserialise_same_states", "read_only_flowreadexception",
             "failed_save_leaves_file_unchanged", "save_after_failed_save", "history_file_reads_back",
+            "value_class.int_subclass", "value_class.str_subclass", "value_class.float_subclass", "value_class.bytes_subclass",
             "backup_roundtrip.type_specific_only", "backup_roundtrip.base_only", "backup_roundtrip.both", "backup_roundtrip.none"]
 ENGINE = "direct"
 TECHNIQUE = "round-trip + reference-codec differential; totality of the reader on mutated files under a step budget"
@@ -513,6 +514,253 @@ def backup_matrix(ctx):
                 k += 1
 
 
+# --------------------------------------------------------------------------------------------- (e) value classes
+
+import enum as _enum
+import http as _pyhttp
+
+
+class _Color(_enum.IntEnum):
+    RED = 1
+    TEAL = 418
+
+
+class _Perm(_enum.IntFlag):
+    R = 4
+    W = 2
+
+
+class _PlainInt(int):
+    pass
+
+
+class _ReprInt(int):
+    def __repr__(self):
+        return "_ReprInt(%d)" % int(self)
+
+
+class _StrInt(int):
+    def __str__(self):
+        return "seven"
+
+
+class _Tag(_enum.StrEnum):
+    A = "alpha"
+    U = "\u00fcber"
+
+
+class _LoudStr(str):
+    def __str__(self):
+        return "custom-str"
+
+    def __repr__(self):
+        return "<LoudStr>"
+
+
+class _PlainFloat(float):
+    pass
+
+
+class _ReprFloat(float):
+    def __repr__(self):
+        return "_ReprFloat"
+
+
+class _MyBytes(bytes):
+    pass
+
+
+# class -> values.  "supported" classes must round-trip to an equal (==) plain value; "number_subclass_custom_repr" is what the
+# format cannot be expected to guess but must not corrupt either (see classify_value_class); "buffer" types are rejected at save time.
+VALUE_CLASSES = {
+    "int_subclass": [_pyhttp.HTTPStatus.NOT_FOUND, _pyhttp.HTTPStatus.OK, _Color.TEAL, _Perm.R | _Perm.W, _PlainInt(8080)],
+    "bool_as_int": [True, False],
+    "number_subclass_custom_repr": [_ReprInt(5), _StrInt(7), _ReprFloat(946681200.5)],
+    "str_subclass": [_Tag.A, _Tag.U, _LoudStr("plain content"), _LoudStr("\u20ac content")],
+    "float_subclass": [_PlainFloat(946681200.25)],
+    "bytes_subclass": [_MyBytes(b"bytes \xff content")],
+    "buffer": [bytearray(b"ba"), memoryview(b"mv")],
+}
+
+
+def _plc_int():
+    return [
+        ("response.status_code", ("http", "websocket"), lambda f, v: setattr(f.response, "status_code", v)),
+        ("request.port", ("http", "websocket"), lambda f, v: setattr(f.request, "port", v)),
+        ("metadata", G.KINDS, lambda f, v: f.metadata.__setitem__("vc", v)),
+        ("metadata.nested", G.KINDS, lambda f, v: f.metadata.__setitem__("vc", {"a": [1, (v,), {"b": v}], "z": "tail"})),
+        ("dns.request.id", ("dns",), lambda f, v: setattr(f.request, "id", v)),
+        ("server_conn.address.port", G.KINDS, lambda f, v: setattr(f.server_conn, "address", ("example.com", v))),
+        ("websocket.close_code", ("websocket",), lambda f, v: setattr(f.websocket, "close_code", v)),
+    ]
+
+
+def _plc_str():
+    return [
+        ("comment", G.KINDS, lambda f, v: setattr(f, "comment", v)),
+        ("marked", G.KINDS, lambda f, v: setattr(f, "marked", v)),
+        ("metadata", G.KINDS, lambda f, v: f.metadata.__setitem__("vc", [v, {"k": v}])),
+        ("metadata.key", G.KINDS, lambda f, v: f.metadata.__setitem__(v, 1)),
+        ("error.msg", G.KINDS, lambda f, v: setattr(f, "error", mflow.Error(v, 946681207.0))),
+        ("client_conn.sni", G.KINDS, lambda f, v: setattr(f.client_conn, "sni", v)),
+        ("websocket.close_reason", ("websocket",), lambda f, v: setattr(f.websocket, "close_reason", v)),
+    ]
+
+
+def _plc_float():
+    def msg_ts(f, v):
+        msgs = f.websocket.messages if getattr(f, "websocket", None) else f.messages
+        if not msgs:
+            raise LookupError("no message")
+        msgs[0].timestamp = v
+
+    return [
+        ("timestamp_created", G.KINDS, lambda f, v: setattr(f, "timestamp_created", v)),
+        ("request.timestamp_start", ("http", "websocket"), lambda f, v: setattr(f.request, "timestamp_start", v)),
+        ("message.timestamp", ("tcp", "udp", "websocket"), msg_ts),
+        ("metadata", G.KINDS, lambda f, v: f.metadata.__setitem__("vc", (v, [v]))),
+        ("error.timestamp", G.KINDS, lambda f, v: setattr(f, "error", mflow.Error("e", v))),
+    ]
+
+
+def _plc_bytes():
+    def msg_content(f, v):
+        if not f.messages:
+            raise LookupError("no message")
+        f.messages[0].content = v
+
+    return [
+        ("request.raw_content", ("http", "websocket"), lambda f, v: setattr(f.request, "raw_content", v)),
+        ("message.content", ("tcp", "udp"), msg_content),
+        ("metadata", G.KINDS, lambda f, v: f.metadata.__setitem__("vc", {"b": [v]})),
+        ("client_conn.alpn", G.KINDS, lambda f, v: setattr(f.client_conn, "alpn", v)),
+    ]
+
+
+def placements_for(value):
+    if isinstance(value, (bytearray, memoryview)):
+        return [p for p in _plc_bytes() if p[0] == "metadata"]
+    if isinstance(value, bool):
+        return [p for p in _plc_int() if p[0] in ("metadata", "metadata.nested")]
+    if isinstance(value, int):
+        return _plc_int()
+    if isinstance(value, float):
+        return _plc_float()
+    if isinstance(value, str):
+        return _plc_str()
+    return _plc_bytes()
+
+
+def to_plain(o):
+    """The plain value a subclass instance stands for (what == compares)."""
+    if isinstance(o, dict):
+        return {to_plain(k): to_plain(v) for k, v in o.items()}
+    if isinstance(o, (list, tuple)):
+        return [to_plain(x) for x in o]
+    if isinstance(o, bool) or o is None:
+        return o
+    if isinstance(o, int):
+        return int.__index__(o) + 0
+    if isinstance(o, float):
+        return float.__add__(o, 0.0) if o == o else o
+    if isinstance(o, str):
+        return "".join(o)
+    if isinstance(o, bytes):
+        return bytes.__getitem__(o, slice(None)) if type(o) is bytes else b"".join([bytes.__getitem__(o, slice(None))])
+    return o
+
+
+def classify_value_class(cls):
+    """Only one class has a mechanism: numbers of a user subclass that overrides __str__/__repr__ (input condition)."""
+    return "number-subclass-with-custom-str-or-repr-written-verbatim" if cls == "number_subclass_custom_repr" else None
+
+
+def case_value_class(ctx, r, cls, value, placement, kind):
+    """[plain flow, flow carrying `value` at `placement`, plain flow] written by one writer and read back."""
+    pname, kinds, setter = placement
+    fa = G.gen_flow(r, None, size="small", exotic_floats=False)
+    fb = G.gen_flow(r, kind, size="small", exotic_floats=False)
+    fc = G.gen_flow(r, None, size="small", exotic_floats=False)
+    if fb._backup:
+        fb.revert()
+    if kind in ("http", "websocket") and fb.response is None and pname.startswith("response"):
+        fb.response = G.gen_response(r, True)
+    W = {"value_class": cls, "value_type": type(value).__name__, "value": short(repr(value), 80), "placement": pname, "kind": kind}
+    sig = ("value-class", cls, type(value).__name__, pname, kind)
+    try:
+        setter(fb, value)
+    except LookupError:
+        return  # the generated flow has no such part (no message); not a case
+    except Exception as e:
+        # the public attribute refuses the value: nothing reaches the file
+        ctx.count("value_class.refused_by_setter")
+        ctx.seen("value_class_refusals", f"{type(value).__name__}@{pname}:{type(e).__name__}")
+        ctx.case(sig + ("refused",), False, None)
+        return
+    ctx.count("value_class." + cls)
+    mech = classify_value_class(cls)
+    # (a buffer object in metadata already makes get_state() raise -- deepcopy cannot copy a memoryview --, which is a refusal too)
+    want_b = None if cls == "buffer" else T.norm(to_plain(copy.deepcopy(fb.get_state())))
+    want = [T.norm(copy.deepcopy(fa.get_state())), want_b, T.norm(copy.deepcopy(fc.get_state()))]
+    buf = io.BytesIO()
+    w = FlowWriter(buf)
+    w.add(fa)
+    before = buf.getvalue()
+    raised = None
+    try:
+        w.add(fb)
+    except Exception as e:  # noqa
+        raised = e
+    if cls == "buffer":
+        # not part of the format: the save must be refused and must not touch the file
+        if raised is None or buf.getvalue() != before:
+            ctx.violation("buffer-value-not-refused-cleanly", {**W, "raised": repr(raised), "appended": buf.getvalue()[len(before):][:200]}, mech)
+        want.pop(1)
+    elif raised is not None:
+        ctx.violation("supported-value-class-rejected-at-save", {**W, "exc": short(repr(raised)), "site": exc_site(raised)}, mech)
+        want.pop(1)
+        if buf.getvalue() != before:
+            ctx.violation("failed-save-changed-file", {**W, "appended": buf.getvalue()[len(before):][:200]}, mech)
+    w.add(fc)
+    data = buf.getvalue()
+    sample = {"case": "value-class", **W}
+    try:
+        loaded = read_flows(data, r.choice(["bytesio", "buffered"]), None)
+    except Exception as e:
+        ctx.violation("value-class-file-unreadable", {**W, "exc": short(repr(e)), "record_head": data[len(before):][:160]}, mech)
+        ctx.case(sig, True, sample)
+        return
+    if len(loaded) != len(want):
+        ctx.violation("value-class-flow-count-differs", {**W, "written": len(want), "loaded": len(loaded)}, mech)
+    else:
+        for i, (a, g) in enumerate(zip(want, loaded)):
+            b = T.norm(g.get_state())
+            if not T.same(a, b):
+                ctx.violation("value-class-state-differs", {**W, "flow": i, "diff": T.diff(a, b)}, mech or classify_roundtrip(a, b))
+                break
+    ctx.case(sig, True, sample)
+
+
+def value_class_matrix(ctx):
+    """Fixed matrix value class x value x placement x compatible flow kind, split over the workers; first in every tier."""
+    k = 0
+    for cls, values in VALUE_CLASSES.items():
+        for value in values:
+            for placement in placements_for(value):
+                for kind in placement[1]:
+                    if k % ctx.nworkers == ctx.worker:
+                        case_value_class(ctx, ctx.case_rng(-3000 - k, "c36-vc"), cls, value, placement, kind)
+                    k += 1
+
+
+def case_value_class_random(ctx):
+    r = ctx.rng
+    cls = r.choice(list(VALUE_CLASSES))
+    value = r.choice(VALUE_CLASSES[cls])
+    placement = r.choice(placements_for(value))
+    case_value_class(ctx, r, cls, value, placement, r.choice(list(placement[1])))
+
+
 # --------------------------------------------------------------------------------------------- (b) hostile bytes
 
 def base_pool(ctx):
@@ -852,11 +1100,17 @@ def run(ctx):
     try:
         pool = base_pool(ctx)
         backup_matrix(ctx)
+        value_class_matrix(ctx)
         for i in ctx.cases():
             if i % 8 == 0:
                 case_roundtrip(ctx, tmpdir)
             elif i % 8 == 4:
                 case_fault_history(ctx, tmpdir)
+            elif i % 8 == 6:
+                n0 = ctx.evaluations
+                case_value_class_random(ctx)
+                if ctx.evaluations == n0:  # the drawn placement does not exist in the generated flow
+                    ctx.case(("value-class", "not-applicable"), False, None)
             elif i % 8 == 2:
                 case_backup_roundtrip(ctx, ctx.rng, ctx.rng.choice(G.KINDS), ctx.rng.choice(EDIT_CLASSES))
             else:
